@@ -110,6 +110,9 @@ def contracts():
     cs.append(Equiv('matching._MType.__call__', 'ref_match.mtype_call_ref', args={'self': 'inst:matching._MType', 'spec': 'ref'}))
     from contracts import X_ctor
     cs += common.shared(X_ctor, ['matching.Not.__init__', 'matching._MExpr.__init__', 'matching._MSubspec.__init__'])
+    from contracts import C08
+    cs += common.shared(C08, ['core.arg_val', 'core.chain_child'])
+    cs += common.shared(X_ctor, ['matching.CheckError.__init__'])
     return cs
 
 
